@@ -411,6 +411,15 @@ class VTensor(V):
     def py_setattr(self, it, ctx, name, v):
         if name == "requires_grad":
             return
+        if name == "data" and isinstance(v, VTensor):
+            # `p.data = t`: the same tensor object now holds t's storage (shape included)
+            src = v.frozen()
+            keep = {k_: self.meta[k_] for k_ in ("is_parameter",) if k_ in self.meta}
+            self.dims, self.elem, self.sort = list(src.dims), src.elem, src.sort
+            self.view_of = None
+            self.meta = dict(keep)
+            self.meta["version"] = self.meta.get("version", 0) + 1
+            return
         self.meta[name] = v
 
     def py_getitem(self, it, ctx, idx):
@@ -1980,6 +1989,7 @@ def m_index_select(t, it, ctx, a, k):
 
 
 METHODS["index_select"] = m_index_select
+METHODS["__getitem__"] = lambda t, it, ctx, a, k: index_tensor(t, it, ctx, a[0])
 METHODS["t"] = m_t
 METHODS["tril"] = _m_tri(True)
 METHODS["triu"] = _m_tri(False)
